@@ -895,3 +895,10 @@ m('C14', 'interpolate_to_grid: mapping log flag for all properties (defect F15)'
 m('C19', 'extract_1d: mapping decides the averaging of mu_r (defect F15)', MODELS,
   "            log = not (mapped and self.map.name.startswith('L'))",
   "            log = not self.map.name.startswith('L')", 'C19.L1.average')
+m('C13', 'select: selected data not copied (defect F16)', SURV,
+  "            survey['data'][key] = self.data[key].sel(**selection).copy()",
+  "            survey['data'][key] = self.data[key].sel(**selection)", 'C13.N4.copy')
+m('C13', 'misfit: stored weights trusted (defect F17)', SIMS,
+  "            # Store weights\n            self.data['weights'] = std**-2\n",
+  "            # Store weights\n            if 'weights' not in self.data.keys():\n                self.data['weights'] = std**-2\n",
+  'C13.N5.weights')
